@@ -23,6 +23,7 @@ type hkey struct {
 }
 
 type hop struct {
+	Pretty bool `json:"pretty,omitempty"` // the operation runs while the interpreter's pretty-printing flag is on
 	Op  string `json:"op"` // hset hdel hget hgetd obs alias rebuild rangemut
 	K   int    `json:"k"`
 	V   int    `json:"v,omitempty"`
@@ -71,11 +72,13 @@ var hashSymNames = []string{"a", "b", "c", "zz", "Key", "x1", "d", "e", "f", "g9
 func genHashKeys(r *kernel.RNG, n int) []hkey {
 	var ks []hkey
 	used := map[string]bool{}
+	usedText := map[string]bool{}
 	add := func(k hkey) bool {
 		id := specCanon(k)
-		if used[id] {
+		if used[id] && !(k.Kind == "arrN" && strings.Contains(k.Text, "2]") && !usedText[k.Text]) {
 			return false
 		}
+		usedText[k.Text] = true
 		// never an int and a char of equal value, never x and [x] (same canon)
 		if k.Kind == "chr" {
 			if used["int:"+strconv.Itoa(int([]rune(strings.Trim(k.Text, "'"))[0]))] {
@@ -113,7 +116,7 @@ func genHashKeys(r *kernel.RNG, n int) []hkey {
 				add(hkey{"arr1", strconv.Itoa(r.PickInt([]int{3, 5, 8}))})
 			}
 		case 5:
-			add(hkey{"arrN", r.Pick([]string{"[1 2]", "[0 0]", "[1 2 3]", "[\"p\" 1]", "[]", "[[1] 2]", "[[] []]"})})
+			add(hkey{"arrN", r.Pick([]string{"[1 2]", "[0 0]", "[1 2 3]", "[\"p\" 1]", "[]", "[[1] 2]", "[[] []]", "['a' 2]", "[97 2]", "['a' 2]", "[97 2]"})})
 		case 6:
 			// an integer equal to a symbol's number: same bucket as the symbol
 			sym := r.Pick(hashSymNames)
@@ -144,7 +147,7 @@ func specCanon(k hkey) string {
 	case "arr1", "arr2":
 		return "int:" + k.Text
 	case "arrN":
-		return "arr:" + k.Text
+		return "arr:" + normArr(k.Text)
 	case "symnum":
 		return "symnum:" + k.Text
 	case "dotsym":
@@ -186,7 +189,7 @@ func genHashScenario(r *kernel.RNG, tier string, i int) interface{} {
 	w := []int{r.Range(1, 6), r.Range(0, 6), r.Range(0, 3), r.Range(0, 3), r.Range(0, 2), 1, r.Range(0, 2), r.Range(0, 2)}
 	hasAlias := false
 	for j := 0; j < n; j++ {
-		op := hop{K: r.Intn(len(sc.Keys)), V: 1000 + j}
+		op := hop{K: r.Intn(len(sc.Keys)), V: 1000 + j, Pretty: r.Chance(0.08)}
 		switch r.Weighted(w) {
 		case 0:
 			op.Op = "hset"
@@ -288,6 +291,15 @@ func (m *hmodel) valueList() []int {
 }
 
 // canonical identity of a key value returned by the implementation
+var reCharLit = regexp.MustCompile(`'(.)'`)
+
+// normArr: the identity of an array key follows ==, under which a character is the integer of its code
+func normArr(text string) string {
+	return reCharLit.ReplaceAllStringFunc(text, func(m string) string {
+		return strconv.Itoa(int([]rune(m)[1]))
+	})
+}
+
 func sexpCanon(x zygo.Sexp, symnums map[int]string) string {
 	switch k := x.(type) {
 	case *zygo.SexpSymbol:
@@ -305,7 +317,7 @@ func sexpCanon(x zygo.Sexp, symnums map[int]string) string {
 		if len(k.Val) == 1 {
 			return sexpCanon(k.Val[0], symnums)
 		}
-		return "arr:" + zy.Show(k)
+		return "arr:" + normArr(zy.Show(k))
 	}
 	return "other:" + zy.Show(x)
 }
@@ -819,7 +831,19 @@ func execHash(body json.RawMessage) *kernel.Result {
 		return res
 	}
 	aliased := false
+	plainEv := ev
 	for step, op := range sc.Ops {
+		ev = plainEv
+		if op.Pretty && (op.Op == "hset" || op.Op == "hdel" || op.Op == "hget" || op.Op == "hgetd" || op.Op == "hsetnil") {
+			// the operation itself runs with the pretty-printing flag on; it is off again for the observations
+			res.Probe("operation-under-pretty-flag")
+			ev = func(text string) zy.Outcome {
+				plainEv("(pretty true)")
+				o := plainEv(text)
+				plainEv("(pretty false)")
+				return o
+			}
+		}
 		if !aliased {
 			op.Via = "h" // (a minimised history may have lost its alias step)
 		}
